@@ -21,8 +21,8 @@ type gen struct {
 }
 
 func (g *gen) intn(lo, hi int, label string) int { return rapid.IntRange(lo, hi).Draw(g.t, label) }
-func (g *gen) chance(pct int, label string) bool  { return rapid.IntRange(0, 99).Draw(g.t, label) < pct }
-func (g *gen) pick(n int, label string) int        { return rapid.IntRange(0, n-1).Draw(g.t, label) }
+func (g *gen) chance(pct int, label string) bool { return rapid.IntRange(0, 99).Draw(g.t, label) < pct }
+func (g *gen) pick(n int, label string) int      { return rapid.IntRange(0, n-1).Draw(g.t, label) }
 func (g *gen) pickS(s []string, label string) string {
 	return s[g.pick(len(s), label)]
 }
@@ -75,7 +75,7 @@ func (g *gen) genModel() {
 		s.S = g.pickS([]string{"a", "xy", "q,r", "hello\nyo", ""}, "s-init")
 		// generic methods
 		for _, name := range genericNames {
-			if g.chance(45, "decl-"+name) {
+			if g.chance(25+(50*i)/n, "decl-"+name) {
 				md := method{Name: name, Ptr: g.chance(50, "ptr-recv")}
 				if name == "Mb" && !g.off["altsig"] && g.chance(14, "altsig") {
 					md.Alt = true
@@ -149,7 +149,7 @@ func (g *gen) genModel() {
 				s.Embeds = append(s.Embeds, embed{Kind: k, Idx: c})
 			}
 		}
-		if !g.off["embedded-iface"] && g.chance(22, "embed-iface") {
+		if !g.off["promoted-through-embedded-iface"] && g.chance(22, "embed-iface") {
 			k := g.pick(len(m.Ifaces), "embed-iface-idx")
 			e := embed{Kind: embIface, Idx: k, Hold: -1}
 			names := m.allNames(m.Ifaces[k])
@@ -185,7 +185,7 @@ func (g *gen) genModel() {
 				if s.decl(n) != nil {
 					continue
 				}
-				if r := m.resolve(s.Idx, n); r.OK && r.Owner > s.Idx {
+				if r := m.resolve(s.Idx, n); r.OK && r.Owner > s.Idx && !g.bad(s.Idx, n) {
 					cand = append(cand, n)
 				}
 			}
@@ -238,11 +238,23 @@ func (g *gen) targets(names []string) []target {
 	for _, s := range g.m.Structs {
 		for _, n := range names {
 			if r := g.m.resolve(s.Idx, n); r.OK {
+				if g.bad(s.Idx, n) {
+					continue
+				}
 				out = append(out, target{s.Idx, n, r})
 			}
 		}
 	}
 	return out
+}
+
+// bad: the (type, method) pair must be avoided because of a known finding.
+func (g *gen) bad(ti int, name string) bool {
+	if g.off["promotion-depth-first"] && g.m.dfsDiffers(ti, name) {
+		g.Excluded["promotion-depth-first"]++
+		return true
+	}
+	return false
 }
 
 // pickTarget selects a target, steering towards a drawn (receiver,
@@ -258,24 +270,18 @@ func (g *gen) pickTarget(names []string, ok func(target) bool) (target, bool) {
 	if len(cand) == 0 {
 		return target{}, false
 	}
-	wantRecv := g.pickS([]string{"value", "pointer"}, "want-recv")
-	wantEmb := g.pickS([]string{"none", "value", "pointer", "value", "pointer", "iface"}, "want-emb")
-	var best []target
+	// group by (receiver, embedding) cell and draw the cell first
+	cells := map[string][]target{}
+	var order []string
 	for _, t := range cand {
-		if t.r.embKind() == wantEmb && (t.r.recvKind() == wantRecv || wantEmb == "iface") {
-			best = append(best, t)
+		c := t.r.recvKind() + "/" + t.r.embKind()
+		if _, ok := cells[c]; !ok {
+			order = append(order, c)
 		}
+		cells[c] = append(cells[c], t)
 	}
-	if len(best) == 0 {
-		for _, t := range cand {
-			if t.r.embKind() == wantEmb {
-				best = append(best, t)
-			}
-		}
-	}
-	if len(best) == 0 {
-		best = cand
-	}
+	sort.Strings(order)
+	best := cells[order[g.pick(len(order), "cell")]]
 	return best[g.pick(len(best), "target")], true
 }
 
@@ -365,6 +371,15 @@ func (g *gen) call(callee, pre, name string, alt bool) {
 // reached from base (an addressable T<ti> or a *T<ti>).
 func (g *gen) mutate(base string, r res) {
 	if r.Owner < 0 {
+		return
+	}
+	p := g.cur
+	if p.Form == "method-value" && !r.M.Ptr && g.off["mv-value-receiver-bound-late"] {
+		g.Excluded["mv-value-receiver-bound-late"]++
+		return
+	}
+	if p.has("iface:holds-value") && g.off["iface-holds-value-aliases-variable"] {
+		g.Excluded["iface-holds-value-aliases-variable"]++
 		return
 	}
 	g.cur.add("%s.n%d += 100", g.m.pathExpr(base, r), r.Owner)
@@ -683,6 +698,11 @@ func (g *gen) probeInterface() *probe {
 	}
 	vr := g.pickS(variants, "iface-variant")
 	p.feat("iface:" + vr)
+	for _, n := range c.names {
+		if r := g.m.resolve(t.ti, n); r.OK && (len(r.Path) > 0 || ptr && !r.ptrRecv()) {
+			p.feat("dyn-indirect-method")
+		}
+	}
 	val := "x"
 	if ptr {
 		val = "&x"
@@ -691,7 +711,9 @@ func (g *gen) probeInterface() *probe {
 		// call another method of the interface as well
 		if len(c.names) > 1 {
 			n2 := c.names[g.pick(len(c.names), "iface-other")]
-			g.call("i."+n2, "", n2, false)
+			if !g.bad(t.ti, n2) {
+				g.call("i."+n2, "", n2, false)
+			}
 		}
 	}
 	switch vr {
@@ -883,7 +905,7 @@ func (g *gen) probeAssertion() *probe {
 			bad = append(bad, tr)
 		}
 	}
-	fail := len(good) == 0 || (len(bad) > 0 && g.chance(30, "assert-fail"))
+	fail := len(good) == 0 || (len(bad) > 0 && g.chance(25, "assert-fail"))
 	var tr typeRef
 	if fail {
 		if len(bad) == 0 {
@@ -910,6 +932,36 @@ func (g *gen) probeAssertion() *probe {
 	}
 	if tr.alt || (alt && !tr.conc) {
 		p.feat("altsig")
+	}
+	if tr.conc && !tr.d.Ptr && len(st.names) > 0 {
+		for _, n := range st.names {
+			if r := g.m.resolve(tr.d.Idx, n); r.OK && r.ptrRecv() && r.indirect() {
+				p.feat("assert:ptr-method-via-embedded-pointer")
+			}
+		}
+	}
+	if tr.conc {
+		for _, n := range st.names {
+			if g.m.dfsDiffers(tr.d.Idx, n) {
+				p.feat("dfs-mismatch")
+			}
+		}
+	}
+	if !tr.conc && d.Idx >= 0 && contains(tr.names, "Mb") && g.m.mixedAlt(d.Idx) {
+		p.feat("altsig-mixed")
+	}
+	if !tr.conc && d.Idx >= 0 {
+		for _, n := range tr.names {
+			if g.m.ambiguous(d.Idx, n) {
+				p.feat("ambiguous-method")
+			}
+			if r := g.m.resolve(d.Idx, n); r.OK && (len(r.Path) > 0 || d.Ptr && !r.ptrRecv()) {
+				p.feat("dyn-indirect-method")
+			}
+			if r := g.m.resolve(d.Idx, n); !d.Ptr && r.OK && !r.inValueSet() {
+				p.feat("dyn-value-ptr-method")
+			}
+		}
 	}
 	two := g.chance(50, "assert-two")
 	p.add("var e %s = %s", st.src, g.dynExpr(d, k))
@@ -981,9 +1033,15 @@ func (g *gen) probeTypeSwitch() *probe {
 	// candidate case types
 	var cand []typeRef
 	for _, tr := range g.allTypeRefs() {
+		if !tr.conc && g.off["typeswitch-interface-case"] {
+			continue
+		}
 		if g.legalTarget(st, tr) {
 			cand = append(cand, tr)
 		}
+	}
+	if g.off["typeswitch-interface-case"] {
+		g.Excluded["typeswitch-interface-case"]++
 	}
 	// the clause for the main dynamic type, in a drawn position
 	var mainRef typeRef
@@ -1058,9 +1116,17 @@ func (g *gen) probeTypeSwitch() *probe {
 		for _, tr := range cl.types {
 			switch {
 			case tr.alt:
-				p.feat("altsig")
+				p.feat("altsig", "sw:case-iface")
 			case tr.conc:
 				p.feat("sw:case-concrete")
+				for _, n := range st.names {
+					if r := g.m.resolve(tr.d.Idx, n); !tr.d.Ptr && r.OK && r.ptrRecv() && r.indirect() {
+						p.feat("sw:ptr-method-via-embedded-pointer")
+					}
+					if g.m.dfsDiffers(tr.d.Idx, n) {
+						p.feat("dfs-mismatch")
+					}
+				}
 			case strings.Contains(tr.src, ".") || tr.src == "error":
 				p.feat("sw:case-host-iface")
 			default:
@@ -1117,7 +1183,7 @@ func (g *gen) probeTypeSwitch() *probe {
 				var callable bool
 				if tr.conc {
 					r := g.m.resolve(tr.d.Idx, t.name)
-					callable = r.OK && r.alt() == alt
+					callable = r.OK && r.alt() == alt && !g.bad(tr.d.Idx, t.name)
 				} else {
 					callable = contains(tr.names, t.name) && tr.alt == alt
 				}
@@ -1233,14 +1299,21 @@ func groupOf(primary string) []string {
 }
 
 func (g *gen) probeHost() *probe {
-	hk := hostKinds[g.pick(len(hostKinds), "host-kind")]
-	names := groupOf(hk.primary)
-	t, ok := g.pickTarget([]string{hk.primary}, func(t target) bool {
-		return g.m.implements(t.ti, true, names)
+	primaries := []string{"String", "Error", "Unwrap", "Read", "Write", "Less"}
+	t, ok := g.pickTarget(primaries, func(t target) bool {
+		return g.m.implements(t.ti, true, groupOf(t.name))
 	})
 	if !ok {
 		return nil
 	}
+	var kinds []string
+	for _, hk := range hostKinds {
+		if hk.primary == t.name {
+			kinds = append(kinds, hk.kind)
+		}
+	}
+	hk := struct{ kind, primary string }{kinds[g.pick(len(kinds), "host-kind")], t.name}
+	names := groupOf(hk.primary)
 	p := g.newProbe("host")
 	p.feat("host:"+hk.kind, "name:"+hk.primary)
 	p.class(t.r, "host")
@@ -1260,7 +1333,8 @@ func (g *gen) probeHost() *probe {
 		p.feat("host:error-and-stringer")
 	}
 	for _, hn := range []string{"String", "Error", "Write", "Read"} {
-		if hn != hk.primary && g.m.implements(t.ti, ptr, []string{hn}) {
+		// broad on purpose: any reachable method of that name, whatever its receiver
+		if hn != hk.primary && (g.m.resolve(t.ti, hn).OK || g.m.ambiguous(t.ti, hn)) {
 			p.feat("host:also-" + hn)
 		}
 	}
@@ -1367,40 +1441,51 @@ func (g *gen) probeHost() *probe {
 
 var forms = []string{"direct", "method-value", "method-expr", "interface", "assertion", "type-switch", "host"}
 
+// formDraw weights the forms: those that lose probes to known-finding
+// switches or that only count successful cases get a larger share.
+var formDraw = []string{"direct", "direct", "method-value", "method-value", "method-expr", "method-expr", "interface", "interface", "interface",
+	"assertion", "assertion", "assertion", "assertion", "assertion", "type-switch", "type-switch", "type-switch", "host", "host", "host"}
+
 // generate draws one program.
 func generate(t *rapid.T, off map[string]bool) (*program, map[string]int) {
 	g := &gen{t: t, off: off, Excluded: map[string]int{}}
 	g.genModel()
 	pr := &program{M: g.m}
-	n := g.intn(8, 14, "nprobes")
+	n := g.intn(10, 16, "nprobes")
 	for i := 0; i < n; i++ {
-		form := forms[g.pick(len(forms), "form")]
-		var p *probe
-		switch form {
-		case "direct":
-			p = g.probeDirect()
-		case "method-value":
-			p = g.probeMethodValue()
-		case "method-expr":
-			p = g.probeMethodExpr()
-		case "interface":
-			p = g.probeInterface()
-		case "assertion":
-			p = g.probeAssertion()
-		case "type-switch":
-			p = g.probeTypeSwitch()
-		case "host":
-			p = g.probeHost()
+		form := formDraw[g.pick(len(formDraw), "form")]
+		// a probe that cannot be built or that a known finding blocks is
+		// redrawn (same form) a few times, so that the form keeps its share
+		for try := 0; try < 6; try++ {
+			var p *probe
+			switch form {
+			case "direct":
+				p = g.probeDirect()
+			case "method-value":
+				p = g.probeMethodValue()
+			case "method-expr":
+				p = g.probeMethodExpr()
+			case "interface":
+				p = g.probeInterface()
+			case "assertion":
+				p = g.probeAssertion()
+			case "type-switch":
+				p = g.probeTypeSwitch()
+			case "host":
+				p = g.probeHost()
+			}
+			if p == nil {
+				continue
+			}
+			if key := blockedBy(p, off); key != "" {
+				g.Excluded[key]++
+				g.pid--
+				continue
+			}
+			sort.Strings(p.Feats)
+			pr.Probes = append(pr.Probes, p)
+			break
 		}
-		if p == nil {
-			continue
-		}
-		if key := blockedBy(p, off); key != "" {
-			g.Excluded[key]++
-			continue
-		}
-		sort.Strings(p.Feats)
-		pr.Probes = append(pr.Probes, p)
 	}
 	return pr, g.Excluded
 }
